@@ -60,6 +60,7 @@ def run(ctx):
     r.rule("C08.schema", "token attributes: stored names are declared or read under the same name")
     r.rule("C08.order", "indent refresh dominates phase 4; normaliser order after phase 1")
     r.rule("C08.emit", "write-back prints the model's lines verbatim")
+    r.rule("C08.indentcase", "the indent computation reads token text only case-folded: indents are computed before the case rules run and are not recomputed after them, so a decision on the raw spelling differs between the model and a parse of the written file")
     r.rule("C08.zerowidth", "a blank string whose length is a configured option or an action value is written into / created as a whitespace token only where that number is shown not to be zero (an empty whitespace token is in the model but in no parse of the written text)")
     r.explanation = (
         "The classifier's class->literal table is compared with every token instance a rule constructor builds and every literal-argument "
@@ -73,6 +74,7 @@ def run(ctx):
     _order(r, p)
     _emit(r, p)
     _zerowidth(r, p)
+    _indentcase(r, p)
     return r
 
 
@@ -368,6 +370,26 @@ def _blank_multiplier(e):
     return None
 
 
+def _indentcase(r, p):
+    n_reads = 0
+    for fi in sorted(p.functions.values(), key=lambda f: f.key):
+        if not fi.module.name.startswith("vsg.vhdlFile.indent"):
+            continue
+        for n in walk_function(fi.node):
+            if isinstance(n, ast.Call) and isinstance(n.func, ast.Attribute) and n.func.attr in ("get_value", "get_lower_value") and not n.args:
+                n_reads += 1
+                kk = "%s:%s" % (fi.key, norm(n))
+                par = getattr(n, "_parent", None)
+                folded = n.func.attr == "get_lower_value" or (isinstance(par, ast.Attribute) and par.attr in ("lower", "upper", "casefold") and isinstance(getattr(par, "_parent", None), ast.Call))
+                if folded:
+                    r.ok("C08.indentcase", kk, "case-folded read")
+                else:
+                    r.fail("C08.indentcase", kk, "the indent computation reads the raw spelling `%s`: the indent then depends on letter case, which the case rules change after the last indent refresh - the model's indent and the indent a parse of the written file computes differ" % norm(n), fi.loc(n))
+    r.extra["indent_text_reads"] = n_reads
+    if n_reads < 2:
+        raise AnalysisError("only %d token-text reads found in the indent computation" % n_reads)
+
+
 def _zerowidth(r, p):
     from ..model import expand_text
 
@@ -475,6 +497,14 @@ def _emit(r, p):
 
 
 VARIANTS = [
+    Variant("C08", "use-clause library name compared in its raw spelling by the indent computation", "fire",
+            [("vsg/vhdlFile/indent/set_token_indent.py", "            return oToken.get_lower_value()", "            return oToken.get_value()")],
+            rule="C08.indentcase"),
+    Variant("C08", "twin: library names lowered at the call site", "silent",
+            [("vsg/vhdlFile/indent/set_token_indent.py", "            cParams.library_name.append(oToken.get_lower_value())", "            cParams.library_name.append(oToken.get_value().lower())")]),
+    Variant("C08", "whitespace rules write an empty string for zero spaces again (567eb32 reverted)", "fire",
+            [("vsg/rules/whitespace_between_tokens.py", "        if dAction[\"spaces\"] == 0:", "        if self.number_of_spaces == 0:")],
+            rule="C08.zerowidth", key="spaces"),
     Variant("C08", "indent refresh moved to after phase 1", "fire",
             [("vsg/rule_list.py", "            # Update indents before checking indent\n            if phase == 4:\n                self.oVhdlFile.set_token_indent()\n\n", ""),
              ("vsg/rule_list.py", "                self.oVhdlFile.update_token_map()\n\n    def get_rules_in_phase", "                self.oVhdlFile.update_token_map()\n                self.oVhdlFile.set_token_indent()\n\n    def get_rules_in_phase")],
